@@ -331,6 +331,21 @@ theorem run_keeps_limit (cs : List Call) (s s' : St) (h : run s cs = .ok s')
   have := congrArg (fun x => x.r.fl.limit) (run_frame cs s s' h)
   simpa only [eraseAll_limit _ _ hn] using this
 
+/-- **the last `limit` wins, whatever follows**: after `limit n`, any accepted chain of calls none of which lists `_limit`
+(everything but `limit`, `slice`, `fetch_next`) ends with limit `n` -/
+theorem limit_survives (n : Nat) (cs : List Call) (s s' : St) (h : run s (.limit n :: cs) = .ok s')
+    (hw : ∀ c ∈ cs, Slot.f_limit ∉ writes s.r.fl.cls c) : s'.r.fl.limit = some n := by
+  have h1 : step s (.limit n) = .ok { s with r := { s.r with fl := { s.r.fl with limit := some n } } } := rfl
+  unfold run at h
+  simp only [h1, bind, Except.bind] at h
+  exact run_keeps_limit cs _ s' h hw
+
+/-- the calls that list `_limit` are `limit` and `slice` (and `fetch_next`, which is traced as `limit`) — no others -/
+theorem writes_limit_iff (cls : QClass) (c : Call) :
+    Slot.f_limit ∈ writes cls c ↔ (∃ n, c = .limit n) ∨ (∃ a b, c = .slice a b) := by
+  cases c <;> simp [writes]
+  split <;> simp
+
 theorem run_keeps_wheres (cs : List Call) (s s' : St) (h : run s cs = .ok s')
     (hw : ∀ c ∈ cs, Slot.r_wheres ∉ writes s.r.fl.cls c) : s'.r.wheres = s.r.wheres := by
   have hn : Slot.r_wheres ∉ cs.flatMap (writes s.r.fl.cls) := by
